@@ -98,6 +98,7 @@ StylesheetRoot::StylesheetRoot(
     m_cdataSectionElems(constructionContext.getMemoryManager()),
     m_hasCDATASectionElems(false),
     m_importStack(constructionContext.getMemoryManager()),
+    m_nextImportPrecedence(0),
     m_defaultTextRule(0),
     m_defaultRule(0),
     m_defaultRootRule(0),
@@ -146,6 +147,22 @@ StylesheetRoot::~StylesheetRoot()
 
 
 
+struct LessImportPrecedence
+{
+    bool
+    operator()(
+            const ElemAttributeSet*     theLHS,
+            const ElemAttributeSet*     theRHS) const
+    {
+        assert(theLHS != 0 && theRHS != 0);
+
+        return theLHS->getStylesheet().getImportPrecedence() <
+               theRHS->getStylesheet().getImportPrecedence();
+    }
+};
+
+
+
 void
 StylesheetRoot::postConstruction(StylesheetConstructionContext&     constructionContext)
 {
@@ -160,6 +177,16 @@ StylesheetRoot::postConstruction(StylesheetConstructionContext&     construction
 
         while(theCurrentMap != theEndMap)
         {
+            // The definitions were added as they were encountered.  They are
+            // applied in that order, and a definition with higher import
+            // precedence must come later.  That is not the order of occurrence
+            // when a stylesheet has definitions before it includes a stylesheet
+            // which has imports...
+            std::stable_sort(
+                (*theCurrentMap).second.begin(),
+                (*theCurrentMap).second.end(),
+                LessImportPrecedence());
+
             AttributeSetVectorType::iterator        theCurrentVector = (*theCurrentMap).second.begin();
             const AttributeSetVectorType::iterator  theEndVector = (*theCurrentMap).second.end();
 
